@@ -31,9 +31,10 @@ func v12Pref(p ndp.Preference) string {
 	}
 }
 
-// addr interns an address (zone included): the models only ever compare addresses for
-// equality, and 128-bit literals are what makes Coq slow at reading a cases file.
-func (v *v12Render) addr(a netip.Addr) string { return v.in.N("ip:" + a.String()) }
+// addr interns the 128-bit address (the zone is not part of a model address; where it matters
+// -- the sender of a message -- it is rendered separately): the models only ever compare
+// addresses for equality, and 128-bit literals are what makes Coq slow at reading a cases file.
+func (v *v12Render) addr(a netip.Addr) string { return v.in.N("ip:" + a.WithZone("").String()) }
 
 // dur renders a duration in ns as (dz seconds nanoseconds) -- two small literals.
 func (v *v12Render) dur(d time.Duration) string {
